@@ -15,6 +15,13 @@ def gen(ctx):
         if v is not None:
             out.append(f"Definition {name.lower()} : Z := {v}.")
     out.append("")
+    state = ctx.read("tera/src/vm/state.rs")
+    m = re.search(r'static\s+MAGICAL_DUMP_VAR\s*:\s*&str\s*=\s*"([^"\\]*)"\s*;', state)
+    if not m:
+        ctx.missing("state.rs: MAGICAL_DUMP_VAR")
+    else:
+        out.append("Definition magical_dump_var : list N := [" + "; ".join(str(ord(c)) for c in m.group(1)) + "]%N.")
+    out.append("")
     utils = ctx.read("tera/src/utils.rs")
     body = ctx.fn_body(utils, "escape_html", "utils.rs")
     if body is not None:
